@@ -53,6 +53,10 @@ int apply_data(point<double> *dest, const span<const linepart> &pts, const trans
 				tr.apply(i, lp[j], to, from);
 				to   += lp[j].usr;
 				from += lp[j].raw;
+				// remaining values of this dimension
+				if ((max -= lp[j].raw) <= 0) {
+					break;
+				}
 			}
 		}
 		else {
